@@ -64,7 +64,10 @@ def build_response(spec, req, prev_key):
         # the right token with characters mixed in that are not part of it (a lenient base64 decoder would skip them)
         v = {"garbled-bang": good[:5] + "!" + good[5:], "garbled-dash": good[:9] + "-" + good[9:], "garbled-underscore": "_" + good,
              "garbled-dot": good[:-1] + ".=", "garbled-blank": good[:7] + " " + good[7:], "garbled-quotes": '"' + good + '"',
-             "garbled-hash": "#" + good, "garbled-tail": good + "AAAA", "garbled-tail2": good + "=", "garbled-crlfless": good + ", " + good}[acc]
+             "garbled-hash": "#" + good, "garbled-tail": good + "AAAA", "garbled-tail2": good + "=", "garbled-crlfless": good + ", " + good,
+             # a list that merely contains the right token is not the right token
+             "garbled-list-other-first": rm.accept_for(OTHER_KEY) + ", " + good, "garbled-list-trailing-comma": good + ",", "garbled-list-nospace": good + "," + good,
+             "garbled-list-leading-comma": ", " + good, "garbled-list-semicolon": good + "; q=1"}[acc]
         hdrs.append(("Sec-WebSocket-Accept", v))
     if spec.get("proto") is not None:
         hdrs.append(("Sec-WebSocket-Protocol", spec["proto"]))
@@ -264,7 +267,11 @@ statuses = st.sampled_from([101, 101, 101, 100, 102, 200, 204, 400, 401, 403, 40
 upgrades = st.sampled_from(["websocket", "websocket", "WebSocket", "websocket, x", "x, websocket", "h2c", "", "websocketx", None])
 connections = st.sampled_from(["Upgrade", "Upgrade", "upgrade", "keep-alive, Upgrade", "keep-alive", "Upgradex", "", None])
 accepts = st.sampled_from(["ok", "ok", "ok", "missing", "empty", "prev", "other", "altered", "truncated", "swapcase", "garbled-bang", "garbled-dash",
-                           "garbled-underscore", "garbled-dot", "garbled-blank", "garbled-quotes", "garbled-hash", "garbled-tail", "garbled-tail2", "garbled-crlfless"])
+                           "garbled-underscore", "garbled-dot", "garbled-blank", "garbled-quotes", "garbled-hash", "garbled-tail", "garbled-tail2", "garbled-crlfless",
+                           "garbled-list-other-first", "garbled-list-trailing-comma", "garbled-list-nospace", "garbled-list-leading-comma", "garbled-list-semicolon"])
+ACCEPT_KINDS = ["ok", "missing", "empty", "prev", "other", "altered", "truncated", "swapcase", "garbled-bang", "garbled-dash", "garbled-underscore", "garbled-dot", "garbled-blank",
+                "garbled-quotes", "garbled-hash", "garbled-tail", "garbled-tail2", "garbled-crlfless", "garbled-list-other-first", "garbled-list-trailing-comma",
+                "garbled-list-nospace", "garbled-list-leading-comma", "garbled-list-semicolon"]
 extras = st.lists(
     st.sampled_from([("Server", "sim"), ("Date", "Mon, 01 Jan 2024 00:00:00 GMT"), ("X-A", "b: c"), ("Content-Length", "0"),
                      ("Sec-WebSocket-Extensions", "permessage-deflate"), ("Set-Cookie", "k=v")]),
@@ -350,6 +357,11 @@ def offset_cases():
 
 
 def status_cases():
+    # every kind of Sec-WebSocket-Accept value on an otherwise valid response: directly, after a redirect, with a subprotocol, through each entry point
+    for acc in ACCEPT_KINDS:
+        for api in ("connect", "create_connection", "app"):
+            yield {"api": api, "hops": [{"accept": acc}]}
+            yield {"api": api, "subprotocols": ["a", "b"], "hops": [{"status": 302, "location": "ws://h2.test/x"}, {"accept": acc, "proto": "b"}]}
     for status in range(100, 600):
         for full in (True, False):
             h = {"status": status}
